@@ -17,6 +17,7 @@ import TboxModel.C02.Catchup
 import TboxModel.C02.PoolProofs
 import TboxModel.C02.WideProps
 import TboxModel.C02.WideSim
+import TboxModel.C02.ExitLast
 namespace Tbox.C02
 
 /-- Master statement: every callback ever made is legitimate (see `FiredOk`). -/
@@ -606,5 +607,265 @@ example : ((exec init [.newObj [], .newObj [], .api (.init 1 5 false), .api (.en
     let s1 := runScript s (exitLoopActs 0 7)
     let s2 := runScript { s1 with now := s1.now + 5 } (exitLoopActs 0 3)
     (s2.timers.filter (fun r => r.owner == 0)).map fun r => (r.expired, r.base, r.oneshot)) = some [(9, 6, true)] := by decide
+
+/-! ### round 5: only the LAST `exitLoop` counts · `cleanup()` then reuse · negative exit waits
+
+`avoidsSteps slot post` / `avoidsList slot rest` (decidable, `ExitLast.lean`): no call of the continuation — made outside
+callbacks, inside callbacks, inside the callbacks of timers created by callbacks, at any depth, TimerPool calls included —
+addresses the slot, i.e. there is no further `exitLoop`.  `hsc` says the same of the callbacks already installed on objects
+that are still alive (a destroyed timer's callback can never run again: `C02_destroyed_never_fires`). -/
+
+/-- **only the last `exitLoop(w)`, w ≥ 1, counts.**  `s` is ANY state the model can be in (`Inv s`: reached by any history,
+with any number of earlier `exitLoop(w_i)` calls made outside or inside callbacks, the exit timer pending, due, fired or
+never armed; `s` may be in the middle of a pass and in the middle of a callback).  The call is made at clock reading `s.now`;
+`rest` is the remainder of the callback that made it.  Then in EVERY continuation without a further `exitLoop`:
+the slot's callback (`stopLoop()`) has run at most once since the call; if it has, that was the firing of THIS call's timer —
+enablement base `s.now`, wait `w+1`, served on the deadline `s.now + w + 1` exactly, in a pass that read the clock at or
+after it, on an alive, enabled object (no earlier call's deadline ever stops the loop, however many were pending or due) —
+and once a pass that read the clock at `t' ≥ s.now + w + 1` has ended, it HAS run: the loop exits at the deadline of the
+last call. -/
+theorem C02_exit_last_call_wins (s s' : State) (slot w : Nat) (rest : List Act) (post : List Step)
+    (hi : Inv s) (hlt : slot < s.nObjs) (hnp : slot ∉ s.pool) (ha : (s.obj slot).alive = true)
+    (hsc : ∀ i, (s.obj i).alive = true → avoidsList slot (s.obj i).script = true)
+    (hrest : avoidsList slot rest = true) (hpost : avoidsSteps slot post = true)
+    (he : exec (runScript (runScript s (exitLoopActs slot (w + 1))) rest) post = some s') :
+    ∃ nw, s'.log = nw ++ s.log ∧
+      (nw.filter (fun e => e.obj == slot) = [] ∨
+       ∃ e, nw.filter (fun e => e.obj == slot) = [e] ∧ e.base = s.now ∧ e.interval = w + 1 ∧ e.n = 1 ∧
+         e.deadline = s.now + (w + 1) ∧ s.now + (w + 1) ≤ e.passNow ∧ e.okAtCall = true) ∧
+      (∀ t', s'.passNow = some t' → valid s' .endPass = true → s.now + (w + 1) ≤ t' →
+        ∃ e, nw.filter (fun e => e.obj == slot) = [e]) := by
+  -- the state right after the call
+  have hacts : exitLoopActs slot (w + 1) = [.init slot (w + 1) true, .enable slot] := by simp [exitLoopActs]
+  have hi2 : Inv (runScript s (exitLoopActs slot (w + 1))) := runScript_inv s _ hi
+  have hst := runScript_stale s (exitLoopActs slot (w + 1)) slot hlt hnp
+  have hsa : ScrAvoid slot (runScript s (exitLoopActs slot (w + 1))) := by
+    rw [hacts]
+    exact sa_act slot _ _ (Or.inr (Or.inr (Or.inl rfl))) (sa_act slot s _ (Or.inr (Or.inl ⟨_, _, rfl⟩)) hsc)
+  obtain ⟨r, hr, hro, hex, hb, hk, hos, huniq⟩ := C02_exit_arms_fresh s slot w hi ha
+  have ok := hi2.recs r hr
+  have hiv : r.interval = w + 1 := by
+    have := ok.deadline; rw [hex, hb, hk] at this; omega
+  have x0 : XT slot s.now (w + 1) false s.log (runScript s (exitLoopActs slot (w + 1))) := by
+    refine ⟨⟨hi2, hst.1, hst.2, hsa⟩, by have := ok.alive; rw [hro] at this; exact this, [], by rw [runScript_log]; rfl,
+      Or.inl ⟨?_, rfl, rfl, ?_⟩⟩
+    · have := ok.enabled; rw [hro] at this; exact this
+    · intro q hq hqo; rw [huniq q hq hqo]; exact ⟨hb, hiv, hos⟩
+  have x2 := exec_XT post _ hpost (runScript_XT rest hrest x0) s' he
+  obtain ⟨nw, e, p, q⟩ := XT_result x2
+  exact ⟨nw, e, p, q rfl⟩
+
+/-- the same for a call made outside callbacks after ANY history `pre` from the initial state (any number of earlier
+`exitLoop` calls in it, from deferred functions or from timer callbacks) -/
+theorem C02_exit_last_call_wins_history (pre post : List Step) (s s' : State) (slot w : Nat)
+    (h1 : exec init pre = some s) (hlt : slot < s.nObjs) (hnp : slot ∉ s.pool) (ha : (s.obj slot).alive = true)
+    (hsc : ∀ i, (s.obj i).alive = true → avoidsList slot (s.obj i).script = true) (hpost : avoidsSteps slot post = true)
+    (he : exec (runScript s (exitLoopActs slot (w + 1))) post = some s') :
+    ∃ nw, s'.log = nw ++ s.log ∧
+      (nw.filter (fun e => e.obj == slot) = [] ∨
+       ∃ e, nw.filter (fun e => e.obj == slot) = [e] ∧ e.base = s.now ∧ e.interval = w + 1 ∧ e.n = 1 ∧
+         e.deadline = s.now + (w + 1) ∧ s.now + (w + 1) ≤ e.passNow ∧ e.okAtCall = true) ∧
+      (∀ t', s'.passNow = some t' → valid s' .endPass = true → s.now + (w + 1) ≤ t' →
+        ∃ e, nw.filter (fun e => e.obj == slot) = [e]) :=
+  C02_exit_last_call_wins s s' slot w [] post (exec_inv init pre init_inv s h1) hlt hnp ha hsc rfl hpost he
+
+/-- **a last `exitLoop(0)` is final**: it stops the loop at the call (`wait_time.count() == 0` → `stopLoop()`), and whatever exit
+timer was pending — armed by any earlier call, even due in the running pass — never stops the loop afterwards: in every
+continuation without a further `exitLoop` the slot's callback never runs. -/
+theorem C02_exit_zero_final (s s' : State) (slot : Nat) (rest : List Act) (post : List Step)
+    (hi : Inv s) (hlt : slot < s.nObjs) (hnp : slot ∉ s.pool) (ha : (s.obj slot).alive = true)
+    (hsc : ∀ i, (s.obj i).alive = true → avoidsList slot (s.obj i).script = true)
+    (hrest : avoidsList slot rest = true) (hpost : avoidsSteps slot post = true)
+    (he : exec (runScript (runScript s (exitLoopActs slot 0)) rest) post = some s') :
+    ∃ nw, s'.log = nw ++ s.log ∧ nw.filter (fun e => e.obj == slot) = [] := by
+  have hrun : runScript s (exitLoopActs slot 0) = (disable s slot).1 := by simp [exitLoopActs, runScript, act]
+  have hi2 : Inv (disable s slot).1 := disable_inv s slot hi
+  have hst := runScript_stale s (exitLoopActs slot 0) slot hlt hnp
+  rw [hrun] at hst he
+  have hen : ((disable s slot).1.obj slot).enabled = false := by
+    rcases disable_not_enabled s slot ha with h | h
+    · exact h
+    · have hd : (disable s slot).1 = s := by simp [disable, ha, h]
+      rw [hd]
+      cases hen : (s.obj slot).enabled with
+      | false => rfl
+      | true =>
+        obtain ⟨r, hr, ho⟩ := hi.hasRec slot ha hen
+        have := (hi.recs r hr).inited; rw [ho, h] at this; cases this
+  have x0 : XT slot 0 0 true s.log (disable s slot).1 := by
+    refine ⟨⟨hi2, hst.1, hst.2, sa_disable slot s slot hsc⟩, by rw [disable_alive]; exact ha, [], by rw [disable_log]; rfl,
+      Or.inr (Or.inr ⟨hen, rfl, rfl⟩)⟩
+  have x2 := exec_XT post _ hpost (runScript_XT rest hrest x0) s' he
+  obtain ⟨nw, e, p⟩ := x2.ph
+  refine ⟨nw, e, ?_⟩
+  rcases p with ⟨_, b, _⟩ | ⟨_, _, _, _, _, _, hz⟩ | ⟨_, b, _⟩
+  · exact b
+  · cases hz
+  · exact b
+
+/-- **`cleanup()` leaves a fresh pool.**  In a TimerPool-only execution (any history: timers pending, fired, cancelled,
+re-armed from callbacks; `s` may be inside a pass — `cleanup()` called from a timer callback is the `.cleanup` act of a
+script), right after `cleanup()`: no token is live, no TimerEvent is alive, the loop's heap holds NO record — so
+`getWaitTime` sees an empty heap and nothing of before the cleanup can ever be served — while the clock and the callback
+log are untouched.  Every later call on an old object is a no-op (`act` checks `alive` first), old tokens stay dead
+(`C02_pool_stale_token`, by the cabinet contract of C08: tokens are never reissued). -/
+theorem C02_pool_cleanup_fresh (pre : List Step) (s : State) (hpu : puSteps pre = true) (h1 : exec init pre = some s) :
+    (Pool.cleanup s).pool = [] ∧ (∀ j, ((Pool.cleanup s).obj j).alive = false) ∧ (Pool.cleanup s).timers = [] ∧
+    (Pool.cleanup s).log = s.log ∧ (Pool.cleanup s).now = s.now ∧ s.nObjs ≤ (Pool.cleanup s).nObjs := by
+  have hi := exec_inv init pre init_inv s h1
+  have hx := exec_aux init pre init_inv init_aux s h1
+  have hso := exec_sok init pre hpu init_inv init_sok s h1
+  have hap := exec_ap init pre hpu init_inv init_aux init_sok init_ap s h1
+  obtain ⟨a, b, c⟩ := cleanup_fresh s hi hx hap
+  have hq := act_quiet s .cleanup
+  refine ⟨a, b, c, hq.1, ?_, hq.2.1⟩
+  have : ∀ (l : List Nat) (s : State), (l.foldl (fun st k => (destroy (disable st k).1 k).1) s).now = s.now := by
+    intro l
+    induction l with
+    | nil => intro s; rfl
+    | cons k l ih =>
+      intro s
+      simp only [List.foldl]
+      rw [ih]
+      have h2 : (destroy (disable s k).1 k).1.now = (disable s k).1.now := by
+        simp only [destroy]; split
+        · rfl
+        · simp [(disable_fields _ k).1]
+      rw [h2, (disable_fields s k).1]
+  simp only [Pool.cleanup]
+  exact this s.pool s
+
+/-- **the first `doAfter` / `doEvery` after `cleanup()` behaves as on a fresh pool**: its record is the ONLY one in the heap, due
+exactly `d` ms after the call (a full interval: nothing of the old timers' deadlines is inherited), its token is the one
+live token, and it is a new one (≥ every token handed out before the cleanup). -/
+theorem C02_pool_first_after_cleanup (pre : List Step) (s : State) (d : Nat) (os : Bool) (u : List Act)
+    (hpu : puSteps pre = true) (h1 : exec init pre = some s) :
+    let c := Pool.cleanup s
+    let p := Pool.add c d os u
+    p.2 = c.nObjs ∧ s.nObjs ≤ p.2 ∧ p.1.pool = [p.2] ∧
+    ∃ r, p.1.timers = [r] ∧ r.owner = p.2 ∧ r.expired = s.now + d ∧ r.base = s.now ∧ r.k = 0 ∧ r.oneshot = os := by
+  obtain ⟨a, _, c, _, e, f⟩ := C02_pool_cleanup_fresh pre s hpu h1
+  refine ⟨rfl, f, ?_, ?_⟩
+  · rw [(add_pk _ d os u).1, a]; rfl
+  · refine ⟨⟨(Pool.cleanup s).nextTok, (Pool.cleanup s).nObjs, (Pool.cleanup s).now + d, d, os, (Pool.cleanup s).now, 0⟩, ?_, rfl, ?_, e, rfl, rfl⟩
+    · simp [Pool.add, newObjS, initTimer, disable, enable, State.obj, State.setObj, c]
+    · show (Pool.cleanup s).now + d = s.now + d
+      rw [e]
+
+/-- **`cleanup()` then reuse, whole histories.**  TimerPool-only history `pre`, `cleanup()`, any TimerPool-only `mid`, then
+`doAfter(d, u)`, then any TimerPool-only `post`: the new timer satisfies the full doAfter contract (token = fresh serial,
+at most once, not before t + d, exactly once after a pass at t' ≥ t + d unless cancelled) exactly as on a pool that never
+had a cleanup, AND every token that was live when `cleanup()` was called stays dead to the end and none of those timers
+is ever called back after the cleanup. -/
+theorem C02_pool_reuse_after_cleanup (pre mid post : List Step) (s0 s s' : State) (d : Nat) (u : List Act)
+    (hpre : puSteps pre = true) (hmid : puSteps mid = true) (hu : puList u = true) (hpost : puSteps post = true)
+    (h0 : exec init pre = some s0) (h1 : exec s0 (.api .cleanup :: mid) = some s)
+    (h2 : exec s (.api (.doAfter d u) :: post) = some s') :
+    ((Pool.doAfter s d u).2 = s.nObjs ∧ s0.nObjs ≤ s.nObjs ∧
+     (s'.log.filter (fun e => e.obj == s.nObjs)).length ≤ 1 ∧
+     (∀ e ∈ s'.log, e.obj = s.nObjs → s.now + d ≤ e.passNow) ∧
+     (∀ t', s'.passNow = some t' → valid s' .endPass = true → s.now + d ≤ t' →
+       (s'.log.filter (fun e => e.obj == s.nObjs)).length = 1 ∨
+       ((s'.log.filter (fun e => e.obj == s.nObjs)).length = 0 ∧ s.nObjs ∈ s'.killed))) ∧
+    (∀ k, Pool.live s0 k = true → k < s.nObjs ∧ Pool.live s k = false ∧ Pool.live s' k = false ∧
+       ∀ e ∈ s'.log.take (s'.log.length - s0.log.length), e.obj ≠ k) := by
+  have hall : exec init (pre ++ .api .cleanup :: mid) = some s := by rw [exec_append, h0]; exact h1
+  have hpu : puSteps (pre ++ .api .cleanup :: mid) = true := by
+    simp only [puSteps, List.all_append, List.all_cons, Bool.and_eq_true] at hpre hmid ⊢
+    exact ⟨hpre, by simp [Step.pu, Act.pu], hmid⟩
+  obtain ⟨a1, a2, a3, _, a5⟩ := C02_pool_doAfter_once (pre ++ .api .cleanup :: mid) post s s' d u hpu hu hpost hall h2
+  have hx0 := exec_aux init pre init_inv init_aux s0 h0
+  have hmono : ∀ (sts : List Step) (a b : State), exec a sts = some b → a.nObjs ≤ b.nObjs := by
+    intro sts
+    induction sts with
+    | nil => intro a b h; simp [exec] at h; rw [h]; exact Nat.le_refl _
+    | cons st sts ih =>
+      intro a b h
+      simp only [exec] at h
+      split at h
+      · refine Nat.le_trans ?_ (ih _ _ h)
+        cases st with
+        | newObj sc => exact Nat.le_succ _
+        | api x => exact (act_quiet a x).2.1
+        | advance _ => exact Nat.le_refl _
+        | beginPass => exact Nat.le_refl _
+        | endPass => exact Nat.le_refl _
+        | fire tok =>
+          simp only [step]
+          cases hf : findTok a tok with
+          | none => exact Nat.le_refl _
+          | some r =>
+            simp only
+            rw [fire_eq]
+            have := (fireHead_pk a r).2.2
+            have h3 : ∀ (as : List Act) (x : State), x.nObjs ≤ (runScript x as).nObjs := by
+              intro as
+              induction as with
+              | nil => intro x; exact Nat.le_refl _
+              | cons y ys ih2 => intro x; exact Nat.le_trans (act_quiet x y).2.1 (ih2 _)
+            exact this ▸ h3 _ _
+      · cases h
+  have hn01 : s0.nObjs ≤ s.nObjs := hmono _ _ _ h1
+  refine ⟨⟨a1, hn01, a2, a3, a5⟩, ?_⟩
+  intro k hk
+  have hlt : k < s0.nObjs := hx0.poolLt k ((live_iff s0 k).1 hk)
+  have hlong : exec s0 (.api .cleanup :: (mid ++ .api (.doAfter d u) :: post)) = some s' := by
+    have : (Step.api Act.cleanup :: (mid ++ .api (.doAfter d u) :: post)) = (.api .cleanup :: mid) ++ (.api (.doAfter d u) :: post) := rfl
+    rw [this, exec_append, h1]; exact h2
+  obtain ⟨b1, b2⟩ := C02_pool_cleanup pre (mid ++ .api (.doAfter d u) :: post) s0 s' h0 hlong k hk
+  obtain ⟨c1, _⟩ := C02_pool_cleanup pre mid s0 s h0 h1 k hk
+  exact ⟨Nat.lt_of_lt_of_le hlt hn01, c1, b1, b2⟩
+
+/-- **negative exit waits** (outside the property, d ≥ 1; what the code does): `exitLoop(milliseconds(w))` with `w < 0` does NOT
+stop the loop at the call (`count() != 0`) but arms an exit timer whose 64-bit deadline is `now − |w|` (mod 2^64): while
+`|w| ≤ now` — always, on a steady clock that counts from boot — it is due at once: the loop exits in the very next pass;
+if `|w| > now` the deadline wraps to `2^64 − (|w| − now)` and the loop is never stopped by it. -/
+theorem C02_wide_exit_negative (A : Wide.Algs) (x : Wide.XState) (slot : Nat) (w : Int64) (hneg : w.toInt < 0) :
+    (Wide.xExitLoop A x slot w).2 = false ∧
+    (Wide.xExitLoop A x slot w).1 = (Wide.xEnable A (Wide.xInit A x slot w true).1 slot).1 ∧
+    ((-w.toInt).toNat ≤ x.now.toNat → Wide.due x.now (x.now + Wide.intervalArg w) = true) ∧
+    (x.now.toNat < (-w.toInt).toNat → ∀ now' : UInt64, now'.toNat < 2^63 → Wide.due now' (x.now + Wide.intervalArg w) = false) := by
+  have hne : (w == 0) = false := by
+    rw [beq_eq_false_iff_ne]; intro e; rw [e] at hneg; exact absurd hneg (by decide)
+  obtain ⟨h1, h2⟩ := Wide.C02_wide_negative_interval x.now w hneg
+  refine ⟨by simp [Wide.xExitLoop, hne], by simp [Wide.xExitLoop, hne], ?_, ?_⟩
+  · intro hle; rw [Wide.due_iff, h1 hle]; simp
+  · intro hlt now' hn
+    rw [Wide.due_iff, h2 hlt]
+    have := Int64.le_toInt w
+    simp only [decide_eq_false_iff_not]
+    omega
+
+/-- … and `exitLoop(0)` stops at the call; for a count ≥ 1 the width-faithful `exitLoop` is the slot script of the abstract model -/
+theorem C02_wide_exit_is_slot_script (A : Wide.Algs) (x : Wide.XState) (slot : Nat) :
+    (Wide.xExitLoop A x slot 0) = ((Wide.xRunScript A x (exitLoopActs slot 0)), true) ∧
+    ∀ w, w + 1 < 2^63 → Wide.xExitLoop A x slot (Wide.msArg (w + 1)) = ((Wide.xRunScript A x (exitLoopActs slot (w + 1))), false) := by
+  constructor
+  · rfl
+  · intro w hw
+    have hne : (Wide.msArg (w + 1) == 0) = false := by
+      rw [beq_eq_false_iff_ne]; intro e
+      have : (Wide.msArg (w + 1)).toInt = 0 := by rw [e]; rfl
+      unfold Wide.msArg at this
+      rw [Int64.toInt_ofNat_of_lt (by omega)] at this
+      omega
+    simp [Wide.xExitLoop, hne, exitLoopActs, Wide.xRunScript, Wide.xAct]
+
+/-- non-vacuity of `C02_exit_last_call_wins`: slot 0; a user timer 1 (5 ms, persistent) whose callback does not touch the slot;
+exitLoop(7) at t = 1, exitLoop(20) at t = 6 (replaces), exitLoop(3) at t = 8 (the LAST): late pass at t = 30 — both earlier
+deadlines (8 and 26) are over, yet the slot fires once, for the deadline 11 of the last call -/
+def exitDemoPre : List Step :=
+  [.newObj [], .newObj [], .api (.init 1 5 false), .api (.enable 1), .api (.init 0 7 true), .api (.enable 0), .advance 5,
+   .api (.init 0 20 true), .api (.enable 0), .advance 2]
+def exitDemoPost : List Step := [.advance 22, .beginPass, .fire 1, .fire 4, .fire 1, .fire 1, .fire 1, .fire 1, .endPass]
+
+example : avoidsSteps 0 exitDemoPost = true := by decide
+example : ((exec init exitDemoPre).bind fun s => (exec (runScript s (exitLoopActs 0 3)) exitDemoPost).map fun s' =>
+    (s.now, (s'.log.filter fun e => e.obj == 0).map fun e => (e.base, e.interval, e.deadline, e.passNow))) =
+    some (8, [(8, 3, 11, 30)]) := by decide
+/-- non-vacuity of the TimerPool cleanup theorems: two pending timers, cleanup, a doAfter(4) at t = 3: one record, due at 7, token 2 -/
+example : ((exec init [.api (.doAfter 5 []), .api (.doEvery 2 []), .advance 2]).map fun s =>
+    let p := Pool.add (Pool.cleanup s) 4 true []
+    (p.2, p.1.pool, p.1.timers.map fun r => (r.owner, r.expired), (Pool.cleanup s).timers.length)) = some (2, [2], [(2, 7)], 0) := by decide
 
 end Tbox.C02
